@@ -145,6 +145,8 @@ class Gen:
             tx = ",".join(e for e in self.events(c, ss, True).split(",") if e[0] != "P") or "-"
             self.lines.append(f"adp.ping {c} {self.wid} {lab} {self.tat(c)} {tx}")
             self.wid += 1
+        elif k < 0.815 and self.wid:
+            self.lines.append(f"adp.cancel {c} {r.randrange(self.wid)}")
         elif k < 0.84:
             self.lines.append(f"adp.close {c} {self.tat(c)} {self.events(c, ss, True)}")
         elif k < 0.89:
@@ -308,6 +310,94 @@ def small_scope_server(depth):
     return cases
 
 
+def waiter_oracle(case, out):
+    """waiter clause read off the implementation's own outputs, for schedules that include cancellation of the
+    awaiting application task: (i) completing a waiter never raises (InvalidStateError = a future that was
+    cancelled or completed from outside); (ii) a waiter future is never cancelled — only the caller is;
+    (iii) on a line whose events contain ConnectionTerminated and that did not fail, the connection is closed
+    and no ping / connect waiter stays registered"""
+    for line, o in zip(case, out):
+        head = o.split(" | ")[0]
+        if head.startswith("err InvalidStateError"):
+            return f"{line.split()[0][4:]} callback raised InvalidStateError while completing a waiter: {line!r}"
+    for line, o in zip(case, out):
+        head = o.split(" | ")[0]
+        if ":cancelled" in head:
+            return f"a waiter future was cancelled from outside (only its caller may be): {line!r} -> {head}"
+        t = line.split()
+        evs = []
+        if t[0] in ("adp.dgram", "adp.timer") and head.startswith("ok") and "skip" not in head:
+            evs = (t[3] + "," + t[4]).split(",")
+        if "T" in evs and " | " in o:
+            st = core.parse_kv(o.split(" | ")[1])
+            if st.get("cl") != "1" or st.get("pw") != "[]" or st.get("cf") != "0":
+                return f"ConnectionTerminated was processed but waiters remain / _closed is not set: {line!r} -> {o[:160]}"
+    return None
+
+
+def small_scope_cancel():
+    """cancellation of the awaiting task as a schedule event: a target ping with 0-2 other pings outstanding and
+    optionally a wait_closed(), then every sequence of 3 steps over {cancel target, ack target, terminate, ack
+    other, cancel other, cancel the close waiter, scheduled transmit}"""
+    cases = []
+    alphabet = ["Xt", "At", "T", "Ao", "Xo", "Xc", "S"]
+    for others in (0, 1, 2):
+        for closer in (False, True):
+            pre = [f"adp.new {QUIRK}", "adp.server 0", "adp.conn"]
+            wid = 0
+            for k in range(others):
+                pre.append(f"adp.ping 0 {wid} {k + 1} 4652007308841189377 -")
+                wid += 1
+            tgt, tlab = wid, others + 1
+            pre.append(f"adp.ping 0 {tgt} {tlab} 4652007308841189377 -")
+            wid += 1
+            cw = None
+            if closer:
+                cw = wid
+                pre.append(f"adp.waitclosed 0 {cw}")
+            for seq in itertools.product(alphabet, repeat=3):
+                if ("Ao" in seq or "Xo" in seq) and others == 0:
+                    continue
+                if "Xc" in seq and cw is None:
+                    continue
+                lines = list(pre)
+                for s in seq:
+                    if s == "Xt":
+                        lines.append(f"adp.cancel 0 {tgt}")
+                    elif s == "At":
+                        lines.append(f"adp.dgram 0 4652007308841189376 P{tlab} -")
+                    elif s == "T":
+                        lines.append("adp.dgram 0 none T -")
+                    elif s == "Ao":
+                        lines.append("adp.dgram 0 4652007308841189376 P1 -")
+                    elif s == "Xo":
+                        lines.append("adp.cancel 0 0")
+                    elif s == "Xc":
+                        lines.append(f"adp.cancel 0 {cw}")
+                    elif s == "S":
+                        lines.append("adp.transmit 0 4652007308841189378 -")
+                cases.append(lines)
+    # the same for wait_connected(): cancel before / after HandshakeCompleted / ConnectionTerminated, one or two callers
+    for callers in (1, 2):
+        pre = [f"adp.new {QUIRK}", "adp.server 0", "adp.conn"] + [f"adp.waitconn 0 {w}" for w in range(callers)]
+        for seq in itertools.product(["X0", "X1", "H", "T", "W"], repeat=3):
+            if "X1" in seq and callers == 1:
+                continue
+            lines, wid = list(pre), callers
+            for s in seq:
+                if s in ("X0", "X1"):
+                    lines.append(f"adp.cancel 0 {s[1]}")
+                elif s == "H":
+                    lines.append("adp.dgram 0 4652007308841189376 H -")
+                elif s == "T":
+                    lines.append("adp.dgram 0 none T -")
+                else:
+                    lines.append(f"adp.waitconn 0 {wid}")
+                    wid += 1
+            cases.append(lines)
+    return cases
+
+
 def token_oracle(case, out):
     """retry clause of the property, read off the implementation's own outputs: a server that validates
     addresses creates connection state only for a token it issued, and only when the datagram comes from
@@ -350,6 +440,10 @@ def run_stub(ctx, name, cases):
         p = token_oracle(case, out)
         if p:
             ctx.witness(p, {"ops": case, "impl_output": out}, {"oracle": "token", "kind": "foreign-token-accepted"})
+        p = waiter_oracle(case, out)
+        if p:
+            ctx.witness(p, {"ops": case, "impl_output": out, "stub_oracle": "waiter"},
+                        {"oracle": "waiter", "kind": "completion-raised-or-waiter-cancelled"})
         nt = any("done=[" in o and "done=[]" not in o for o in out)
         ctx.count((name, tuple(case)), nt)
     model_lines = lean.run_driver(all_lines)
@@ -493,6 +587,8 @@ ATOMIC_METHODS = {
 # coroutines of the API: the model's atomic step is the synchronous part up to the ONE await that ends them
 SINGLE_AWAIT = {"asyncio/protocol.py": {"QuicConnectionProtocol": {"ping": 1, "wait_connected": 1, "wait_closed": 1,
                                                                      "create_stream": 0}}}
+# coroutines that register a waiter future the adapter completes later: the await must be shielded
+SHIELDED = {"ping", "wait_connected"}
 REENTER = {"run_until_complete", "run_forever"}
 
 
@@ -541,6 +637,12 @@ def atomicity_audit(ctx):
                     if len(awaits) != single[name]:
                         problems.append(f"{rel}: {cname}.{name} has {len(awaits)} suspension points, the model "
                                         f"assumes {single[name]}")
+                    elif awaits and name in SHIELDED and not (
+                            isinstance(awaits[0], ast.Await) and isinstance(awaits[0].value, ast.Call)
+                            and isinstance(awaits[0].value.func, ast.Attribute) and awaits[0].value.func.attr == "shield"):
+                        problems.append(f"{rel}: {cname}.{name} awaits its waiter future without asyncio.shield (line "
+                                        f"{awaits[0].lineno}): cancelling the caller would cancel the registered waiter, "
+                                        f"which the model (Op.cancelCaller) excludes")
                     elif awaits and not _is_last_action(m, awaits[0]):
                         problems.append(f"{rel}: {cname}.{name} runs code after its await (line {awaits[0].lineno}): "
                                         f"the part after the suspension is not modelled")
@@ -608,6 +710,7 @@ def main(tier):
     # (a) stub mode
     run_stub(ctx, "adapter-small-client", small_scope_client(3 if not thorough else 4))
     run_stub(ctx, "adapter-small-server", small_scope_server(3 if not thorough else 4))
+    run_stub(ctx, "adapter-small-cancel", small_scope_cancel())
     n = 250 if not thorough else 5000
     run_stub(ctx, "adapter-random-wf", [gen_case(r, r.choice([8, 20, 40]), True) for _ in range(n)])
     run_stub(ctx, "adapter-random-any", [gen_case(r, r.choice([8, 20, 40]), False) for _ in range(n)])
@@ -629,7 +732,9 @@ def main(tier):
         "mode: 1-3 concurrent real clients against a real QuicServer (retry on in 40%) on a virtual-time loop, network "
         "dropping 0-30%, duplicating 0-30%, delaying 0-40 ms (reordering), PRNG order among timers due together; close by "
         "client, by server, by injected bad frame, by blackhole + idle timeout, at a PRNG time incl. mid-handshake; waiters "
-        "started before/after handshake and after termination; forged-token adversary that also replays every issued "
+        "started before/after handshake and after termination, a quarter of the awaiting tasks cancelled by the "
+        "application after a PRNG delay; stub mode enumerates cancel of the target / another / the close waiter against "
+        "ack and termination with 0-2 other waiters; forged-token adversary that also replays every issued "
         "token from the neighbours of its address (port +-256, high byte only, +1, other host, v6-mapped). Quiescence "
         "worlds: lossless network, idle timeout 60 s, writer ops (write / write_eof / close) of client-initiated, "
         "server-initiated and echoed streams separated by 2 s of virtual quiet, 9 op orders, peer reader checked after each. "
@@ -653,7 +758,7 @@ def replay(path):
             out = [impl.step(l) for l in rp["ops"]]
         finally:
             impl.close()
-        p = token_oracle(rp["ops"], out)
+        p = waiter_oracle(rp["ops"], out) if rp.get("stub_oracle") == "waiter" else token_oracle(rp["ops"], out)
         for l, o in zip(rp["ops"], out):
             print(l, "\n    ", o[:160])
         print("PROBLEM " + p if p else "no problem on this tree")
